@@ -11,7 +11,7 @@ def b01 (b : Bool) : String := if b then "1" else "0"
 
 def model : List String → Option String
   | "date-cmp" :: r => do
-    let [y1, m1, d1, y2, m2, d2] ← ints r | none
+    let [y1, m1, d1, y2, m2, d2] ← ints (r.take 6) | none     -- an optional 7th token names the process zone
     let p : YMD := ⟨y1, m1, d1⟩; let q : YMD := ⟨y2, m2, d2⟩
     some s!"{b01 (dateBefore p q)} {b01 (dateEquals p q)} {b01 (dateAfter p q)}"
   | "hhmm-cmp" :: r => do
@@ -28,7 +28,7 @@ def model : List String → Option String
 
 def specF : List String → Option String
   | "date-cmp" :: r => do
-    let [y1, m1, d1, y2, m2, d2] ← ints r | none
+    let [y1, m1, d1, y2, m2, d2] ← ints (r.take 6) | none
     let p := (y1, m1, d1); let q := (y2, m2, d2)
     some s!"{b01 (decide (lex3 p q))} {b01 (decide (p = q))} {b01 (decide (lex3 q p))}"
   | "hhmm-cmp" :: r => do
